@@ -114,6 +114,12 @@ func draw(rt *rapid.T) Case {
 		add(Step{Op: "call", N: rapid.IntRange(0, 8).Draw(rt, "mid")})
 		refresh()
 		noise()
+		// an idle period: several retry intervals pass with status checks but without a call
+		// (however often the blocked endpoint was due, it gets ONE probe when traffic resumes)
+		for k := rapid.SampledFrom([]int{0, 0, 2, 3}).Draw(rt, "idleIntervals"); k > 0; k-- {
+			add(Step{Op: "advance", Secs: rapid.SampledFrom([]int{31, 40, 61}).Draw(rt, "idleSecs")})
+			add(Step{Op: "check"})
+		}
 		add(Step{Op: "advance", Secs: rapid.SampledFrom([]int{25, 31, 40, 61}).Draw(rt, "a2")})
 		add(Step{Op: "check"})
 		add(Step{Op: "call", N: rapid.IntRange(1, 8).Draw(rt, "probeCalls")})
